@@ -40,6 +40,7 @@ class Checker:
         self.explanation = ""
         self.notes = []
         self.errors = []
+        self.floor_failures = []
         self.t0 = time.time()
         self.selftest = None
 
@@ -60,8 +61,9 @@ class Checker:
     def floor(self, rule, what, count, minimum):
         self.floors["%s:%s" % (rule, what)] = {"found": count, "min": minimum}
         if count < minimum:
-            from .model import AnalysisError
-            raise AnalysisError("rule %s found %d %s, expected at least %d (vanished anchor / vacuous rule)" % (rule, count, what, minimum))
+            # judged at the end: a shrunken instance count next to real findings is a symptom of the finding, not a broken analyser;
+            # next to an otherwise clean result it would be a vacuous pass and is refused (exit 2)
+            self.floor_failures.append("rule %s found %d %s, expected at least %d (vanished anchor / vacuous rule)" % (rule, count, what, minimum))
 
     def analysed(self, func):
         self.stats["functions_analysed"].add(func.qualname if hasattr(func, "qualname") else str(func))
@@ -171,4 +173,9 @@ def finish(ck, seed=0):
     print("%s tier=%s obligations=%d discharged=%d known=%d violations=%d functions=%d paths=%d wall=%.2fs" % (
         ck.pid, ck.tier, len(distinct), len(distinct) - len(findings), len(kn_hits), len(violations),
         len(ck.stats["functions_analysed"]), ck.stats["paths"], time.time() - ck.t0))
-    return 1 if violations else 0
+    if violations:
+        return 1
+    if ck.floor_failures:
+        from .model import AnalysisError
+        raise AnalysisError("; ".join(ck.floor_failures))
+    return 0
